@@ -606,15 +606,19 @@ class GeoImage(ObjectBase):
 
         if self._vertices is None and self.image is not None:
             # the default corners are derived from the image: reading them leaves the file alone
-            self._vertices = np.asarray(
+            derived = np.asarray(
                 np.core.records.fromarrays(
                     np.asarray(self.default_vertices, dtype=float).T,
                     names="x, y, z",
                     formats="<f8, <f8, <f8",
                 )
             )
-            if self.tag is not None:
-                self.georeferencing_from_tiff()
+            if self.tag is None:
+                # ... and they are derived anew each time: another image has other corners
+                return derived.view("<f8").reshape((-1, 3)).astype(float)
+
+            self._vertices = derived
+            self.georeferencing_from_tiff()
 
         # todo: change the call from vertices to vertices_xyz in the code
         if self._vertices is not None:
